@@ -63,6 +63,12 @@ def can_target(work):
     return build(work, 'fuzz_can', src)
 
 
+def e_base(env):
+    e = dict(ASAN_OPTIONS='detect_leaks=0:handle_abort=1:quarantine_size_mb=16', UBSAN_OPTIONS='print_stacktrace=1')
+    e.update({a: str(b) for a, b in env.items()})
+    return e
+
+
 def stage(obs, work, binary, label, env, runs, njobs, seed, max_len=512, seeds=()):
     """Run njobs independent libFuzzer processes of `runs` executions each.  Violations printed by the target as
     'VP-FUZZ|key|json' (then abort) and sanitizer reports become violation keys; the crashing input is kept in the details."""
@@ -82,7 +88,7 @@ def stage(obs, work, binary, label, env, runs, njobs, seed, max_len=512, seeds=(
         e = dict(ASAN_OPTIONS='detect_leaks=0:handle_abort=1:quarantine_size_mb=16', UBSAN_OPTIONS='print_stacktrace=1')
         e.update({a: str(b) for a, b in env.items()})
         rc, so, se = vlib.run([binary, out, corp0, '-runs=%d' % runs, '-max_len=%d' % max_len, '-seed=%d' % (int(seed) * 100 + k + 1), '-artifact_prefix=' + art + '/',
-                               '-timeout=20', '-rss_limit_mb=4000', '-use_value_profile=1', '-print_final_stats=1', '-len_control=0'], env=e, timeout=7200)
+                               '-timeout=120', '-rss_limit_mb=4000', '-use_value_profile=1', '-print_final_stats=1', '-len_control=0'], env=e, timeout=7200)
         return k, rc, se + '\n' + so[-20000:], art
     execs, feats = 0, []
     for k, rc, se, art in vlib.run_parallel(one, list(range(njobs))):
@@ -114,7 +120,12 @@ def stage(obs, work, binary, label, env, runs, njobs, seed, max_len=512, seeds=(
                 obs.add_viol(key + '[coverage-guided:%s]' % label, dict(det or {}, input_hex=data[:600].hex()), source=src)
             obs.ended += 1
         elif files and files[0].startswith(('timeout-', 'slow-unit-')):
-            obs.add_viol('hang:coverage-guided:%s:one-input-ran-longer-than-20s' % label, dict(input_hex=data[:600].hex()), source=src)
+            # libFuzzer's per-input limit is wall-clock time: decide by CPU time on a re-run of that input alone
+            r2, so2, se2 = vlib.run([binary, os.path.join(art, files[0])], env=e_base(env), timeout=900, cpu_limit=60)
+            if r2 in (-24, -9, 152, 137):
+                obs.add_viol('hang:coverage-guided:%s:one-input-needs-more-than-60-cpu-seconds' % label, dict(input_hex=data[:600].hex()), source=src)
+            else:
+                obs.notes.append('coverage-guided %s: libFuzzer reported a slow input that finished normally when re-run alone (machine load)' % label)
             obs.ended += 1
         elif files:
             obs.add_viol('fuzz-crash:%s' % label, dict(input_hex=data[:600].hex(), artifact=files[0], rc=rc, stderr_head=se[:1500], stderr=se[-1500:]), source=src)
